@@ -26,17 +26,54 @@ def box(name):
         return dict(fam=families.SHAPE(1), alpha='xyzw', chunk=8)
     if name == 's2':
         return dict(fam=families.SHAPE(2), alpha='xyzw', chunk=24)
+    if name == 'x1':        # the anonymous literal is "x": same terminal as the named X, filtered per occurrence
+        return dict(fam=families.SHAPE(1, zlit='x'), alpha='xyw', chunk=8)
+    if name == 'x2':
+        return dict(fam=families.SHAPE(2, zlit='x'), alpha='xyw', chunk=24)
     raise KeyError(name)
 
 
-TIERS = {'quick': [('s1', 1, 3), ('s2', 32, 3)],
-         'thorough': [('s1', 1, 4), ('s2', 1, 3)]}
+TIERS = {'quick': [('s1', 1, 3), ('s2', 48, 3), ('x1', 1, 3), ('x2', 48, 3)],
+         'thorough': [('s1', 1, 4), ('s2', 1, 3), ('x1', 1, 4), ('x2', 2, 3)]}
+
+
+def helper_cache_collision(g, same, keep_all):
+    """Cause predicate of the known finding 'ebnf-helper-cache-ignores-filter' (evaluated on the grammar only):
+    two repetition items (* or +) whose bodies are the same symbols once an anonymous literal is identified with the
+    named terminal of the same text, but whose tokens are filtered differently (literal vs name, or ! rule vs not)."""
+    if keep_all:
+        return False
+    seen = {}
+
+    def canon(it):
+        k = it[0]
+        if k in ('tok', 'lit', 're'):
+            t = same.get(it)
+            return ('tok', t) if t else it
+        if k in ('opt', 'star', 'plus'):
+            return (k, canon(it[1]))
+        if k == 'rep':
+            return (k, canon(it[1]), it[2], it[3])
+        if k in ('maybe', 'group'):
+            return (k, tuple(tuple(canon(x) for x in s2) for s2 in it[1]))
+        return it
+    for r in g.rules.values():
+        for seq, _ in r.alts:
+            for it in gram.items_of(seq):
+                if it[0] in ('star', 'plus'):
+                    body = canon(it[1])
+                    sig = tuple(refsem.tok_kept(x, r, False) for x in gram.items_of((it[1],)) if x[0] in ('tok', 'lit', 're'))
+                    if seen.setdefault(body, sig) != sig:
+                        return True
+    return False
 
 
 def check(g, gi, boxname, b, inputs, res, only=None):
     gtext = g.text()
     gref = gram.instantiate_templates(g)
     named = set(g.terms)
+    samekeys = {('lit', t.pats[0][1]): t.name for t in g.terms.values() if len(t.pats) == 1 and t.pats[0][0] == 'str'}
+    same = {('lit', t.pats[0][1]): t.name for t in g.terms.values() if len(t.pats) == 1 and t.pats[0][0] == 'str'}
     derivs = {}
     for w in inputs:
         try:
@@ -47,7 +84,7 @@ def check(g, gi, boxname, b, inputs, res, only=None):
         for ph in (False, True):
             if only and (only['keep_all_tokens'], only['maybe_placeholders']) != (keep_all, ph):
                 continue
-            want = {w: (None if D is None else {norm_ref(refsem.shape(d, gref, w, keep_all, ph)) for d in D})
+            want = {w: (None if D is None else {norm_ref(refsem.shape(d, gref, w, keep_all, ph), same) for d in D})
                     for w, D in derivs.items()}
             may_fail = None
             for parser, lexer in ENGINES:
@@ -100,8 +137,9 @@ def check(g, gi, boxname, b, inputs, res, only=None):
                     if w:
                         res['nontrivial'] += 1
                     if got not in W:
+                        cause = 'ebnf-helper-cache-ignores-filter' if helper_cache_collision(gref, samekeys, keep_all) else 'shape'
                         res['viol'].append({'kind': 'tree-not-a-shaped-derivation' if W else 'accepted-non-sentence',
-                                            'cause': 'shape', 'case': case,
+                                            'cause': cause, 'case': case,
                                             'expected': sorted(W, key=repr)[:3], 'observed': got})
                     elif len(res['samples']) < 2 and len(w) >= 2 and parser != 'earley':
                         res['samples'].append({'grammar': gtext, 'options': {'keep_all_tokens': keep_all, 'maybe_placeholders': ph},
